@@ -332,7 +332,12 @@ struct GridState {
     }
     void note(const std::string &t) { trace.push_back(t); n_exec++; if (ctx) ctx->log(t); }
     // after a refinement/update produced too many needed points the history drops them (a legal ClearRefinement)
-    void enforce_cap() { if (g.getNumNeeded() + g.getNumLoaded() > 4 * cap) { g.clearRefinement(); note("ClearRef(cap)"); } }
+    void enforce_cap() {
+        if (g.getNumNeeded() + g.getNumLoaded() > 4 * cap) { g.clearRefinement(); note("ClearRef(cap)"); return; }
+        // Global grids: fewer than 1000 nodes per direction (beyond that the Lagrange coefficients overflow: decided by the class "global:deep-1d" of C01, see known_findings.json)
+        if (spec.family == F_GLOBAL && g.getNumNeeded() >= 500) { auto p = g.getNeededPoints(); size_t n = p.size() / (size_t)spec.dims;
+            for (int j = 0; j < spec.dims; j++) { std::set<double> u; for (size_t i = 0; i < n; i++) u.insert(p[i * (size_t)spec.dims + (size_t)j]); if (u.size() >= 500) { g.clearRefinement(); note("ClearRef(1-D capacity)"); return; } } }
+    }
 };
 
 // Upper bound of the 1-D exactness index a curved selection with the given weights can reach in an unlimited direction for offsets up to 12 (see OP_REF_ANISO).
